@@ -43,6 +43,10 @@ pub fn run_case(case: &HistCase, st: &mut Stats, known_open: &dyn Fn(&str) -> bo
             return Ok(());
         }
         w.rescan();
+        if o.code == op::LOAD && crate::c13::dup_paths(&mut w) {
+            st.class("ended:merge-duplicate-or-failed-merge(KF-C09-1/KF-C11-1)");
+            return Ok(());
+        }
     }
     // the model must be free of duplicate paths before the operation (open findings of C04/C09 can create them)
     let nm = w.models.len();
